@@ -33,7 +33,7 @@ def parse_case_line(line):
             progs.append([(tok.split(":")[0], [int(x) for x in tok.split(":")[1:]]) for tok in sec.split()])
     return mk_case(params["chan"], int(params.get("N", 4)), int(params.get("M", 1)), int(params.get("k", 1)), int(params.get("origin", 0)), progs, sched)
 
-def gen_case(rng, chan, Ns=(2, 4), Ms=(1, 2), origin=0, profile=None):
+def gen_case(rng, chan, Ns=(2, 4), Ms=(1, 2), origin=0, profile=None, tail_rounds=40):
     N = rng.choice(Ns); M = rng.choice(Ms); k = rng.randint(1, M)
     nprod = rng.randint(1, 3)
     profile = profile or rng.choice(["drive", "drive", "poll", "cancel"])
@@ -51,7 +51,7 @@ def gen_case(rng, chan, Ns=(2, 4), Ms=(1, 2), origin=0, profile=None):
     nthreads = len(progs)
     total = sum(len(p) for p in progs) + 4 * k
     sched = random_sched(rng, nthreads, rng.randint(0, total * 6), burst=rng.choice([0.3, 0.6, 0.85]))
-    for _ in range(40):
+    for _ in range(tail_rounds):
         sched += list(range(nthreads))
     return mk_case(chan, N, M, k, origin, progs, sched, {"profile": profile})
 
@@ -97,3 +97,65 @@ def uni_nontrivial(case, recs):
         elif r[0] == "ret":
             active.discard(r[1])
     return switch and any(r[0] == "ret" and r[2] in (11, 13) for r in recs)
+
+# --------------------------------------------------------------------------------- quiescence oracles (C04, C07)
+def end_states(case, recs):
+    """per thread: 'done' (its program is over), ('parked', i) (its last two grants read notified[i] = 0), or 'running'"""
+    last = {}
+    for r in recs:
+        if r[0] in ("acc", "skip"): last.setdefault(r[1], []).append(r)
+    out = {}
+    for t in range(len(case.meta["progs"])):
+        rs = last.get(t, [])[-2:]
+        if len(rs) == 2 and all(r[0] == "skip" for r in rs): out[t] = "done"
+        elif len(rs) == 2 and all(r[0] == "acc" and r[3] == 11 and r[4] == 0 for r in rs): out[t] = ("parked", rs[-1][2] - 300)
+        else: out[t] = "running"
+    return out
+
+def sends_overlap(case, recs):
+    """two send operations whose [first access, return] intervals overlap in the trace"""
+    open_, intervals = {}, []
+    progs = case.meta["progs"]; pos = {}
+    for i, r in enumerate(recs):
+        if r[0] == "acc":
+            t = r[1]
+            if t not in open_:
+                k = pos.get(t, 0)
+                if k < len(progs[t]) and progs[t][k][0] in ("send", "sendw"): open_[t] = i
+        elif r[0] == "ret":
+            t = r[1]; pos[t] = pos.get(t, 0) + 1
+            if t in open_: intervals.append((open_.pop(t), i))
+    for t, i in open_.items(): intervals.append((i, len(recs)))
+    intervals.sort()
+    return any(a2 < b1 for (a1, b1), (a2, b2) in zip(intervals, intervals[1:]))
+
+def oracle_lost_wakeup(case, recs):
+    """C04: at the end of the run everything is quiescent, no cancel happened, an accepted event is still pending and every
+    stream is parked un-notified"""
+    if any(n == "cancel_all" for p in case.meta["progs"] for n, a in p): return []
+    st = end_states(case, recs)
+    if any(v == "running" for v in st.values()): return []
+    ok = len([r for r in recs if r[0] == "ret" and r[2] == 10])
+    yl = len([r for r in recs if r[0] == "ret" and r[2] == 12])
+    parked = [v[1] for v in st.values() if v != "done"]
+    k = case.meta["k"]
+    driven = [a[0] for p in case.meta["progs"] for n, a in p if n == "drive"]
+    if ok - yl > 0 and sorted(parked) == list(range(k)) and sorted(driven) == list(range(k)):
+        cls = None
+        if case.meta["chan"] in ("move_atomic", "zc_atomic"):
+            if k >= 2: cls = "C04.ring.multi_consumer"
+            elif sends_overlap(case, recs): cls = "C04.ring.overlapping_sends"
+        return [(cls, "lost wake-up: %d accepted event(s) pending, all producers returned, every stream parked and not notified" % (ok - yl))]
+    return []
+
+def oracle_cancel(case, recs):
+    """C07: after cancel_all returned and everything went quiet, every driven stream has answered end-of-stream; nothing
+    buffered at that time is dropped by the cancel (it is yielded first)"""
+    if not any(r[0] == "ret" and r[2] == 16 for r in recs): return []
+    st = end_states(case, recs)
+    if any(v == "running" for v in st.values()): return []
+    hits = []
+    for t, v in st.items():
+        if v != "done":
+            hits.append((None, "stream %d is still parked (not notified) after cancel_all returned and the run went quiet" % v[1]))
+    return hits
